@@ -50,14 +50,14 @@ $(B)/libh4plain.a: $(PLAIN_OBJ)
 $(B)/libh4fuzz.a: $(FUZZ_OBJ)
 	rm -f $@; ar rcs $@ $^
 
-$(B)/h4x: $(V)/src/h4x.c $(V)/src/wrapio.c $(V)/src/h4x_helpers.c $(B)/libh4san.a
-	$(CC) $(OPT) $(SAN) $(DEFS) -DHDF $(MFINC) $(V)/src/h4x.c $(V)/src/wrapio.c $(V)/src/h4x_helpers.c \
+$(B)/h4x: $(V)/src/h4x.c $(V)/src/wrapio.c $(V)/src/h4x_helpers.c $(V)/src/h4x_describe.c $(B)/libh4san.a
+	$(CC) $(OPT) $(SAN) $(DEFS) -DHDF $(MFINC) $(V)/src/h4x.c $(V)/src/wrapio.c $(V)/src/h4x_helpers.c $(V)/src/h4x_describe.c \
 	  -Wl,--whole-archive $(B)/libh4san.a -Wl,--no-whole-archive $(WRAPS) -rdynamic -ldl $(LIBS) -o $@
 
 $(B)/c06_enum: $(V)/src/c06_enum.c $(B)/libh4san.a
 	$(CC) -g -O2 -w $(SAN) $(DEFS) -DHDF $(MFINC) $< $(B)/libh4san.a $(LIBS) -lpthread -o $@
 
-# ---- tools (plain build: what a user runs) ----
+# ---- tools (built with the same sanitizers as the library, so that memory errors in tool code are visible) ----
 HREPACK_C := $(filter-out %/hrepacktst.c %/hrepack_check.c,$(wildcard $(H4_SRC)/mfhdf/hrepack/*.c))
 HDIFF_C   := $(filter-out %/hdifftst.c,$(wildcard $(H4_SRC)/mfhdf/hdiff/*.c)) $(H4_SRC)/mfhdf/util/h4getopt.c
 HDP_C     := $(wildcard $(H4_SRC)/mfhdf/hdp/*.c)
@@ -65,14 +65,14 @@ HIMPORT_C := $(H4_SRC)/mfhdf/hdfimport/hdfimport.c
 TOOLINC   = $(MFINC) -I$(H4_SRC)/mfhdf/util -I$(H4_SRC)/mfhdf/hdiff -I$(H4_SRC)/mfhdf/hrepack
 
 tools: $(B)/tools/hrepack $(B)/tools/hdiff $(B)/tools/hdp $(B)/tools/hdfimport
-$(B)/tools/hrepack: $(HREPACK_C) $(B)/libh4plain.a | $(B)/tools
-	$(CC) $(OPT) $(DEFS) -DHDF $(TOOLINC) $(HREPACK_C) $(B)/libh4plain.a $(LIBS) -o $@
-$(B)/tools/hdiff: $(HDIFF_C) $(B)/libh4plain.a | $(B)/tools
-	$(CC) $(OPT) $(DEFS) -DHDF $(TOOLINC) $(HDIFF_C) $(B)/libh4plain.a $(LIBS) -o $@
-$(B)/tools/hdp: $(HDP_C) $(B)/libh4plain.a | $(B)/tools
-	$(CC) $(OPT) $(DEFS) -DHDF $(TOOLINC) $(HDP_C) $(B)/libh4plain.a $(LIBS) -o $@
-$(B)/tools/hdfimport: $(HIMPORT_C) $(B)/libh4plain.a | $(B)/tools
-	$(CC) $(OPT) $(DEFS) -DHDF $(TOOLINC) $(HIMPORT_C) $(B)/libh4plain.a $(LIBS) -o $@
+$(B)/tools/hrepack: $(HREPACK_C) $(B)/libh4san.a | $(B)/tools
+	$(CC) $(OPT) $(SAN) $(DEFS) -DHDF $(TOOLINC) $(HREPACK_C) $(B)/libh4san.a $(LIBS) -o $@
+$(B)/tools/hdiff: $(HDIFF_C) $(B)/libh4san.a | $(B)/tools
+	$(CC) $(OPT) $(SAN) $(DEFS) -DHDF $(TOOLINC) $(HDIFF_C) $(B)/libh4san.a $(LIBS) -o $@
+$(B)/tools/hdp: $(HDP_C) $(B)/libh4san.a | $(B)/tools
+	$(CC) $(OPT) $(SAN) $(DEFS) -DHDF $(TOOLINC) $(HDP_C) $(B)/libh4san.a $(LIBS) -o $@
+$(B)/tools/hdfimport: $(HIMPORT_C) $(B)/libh4san.a | $(B)/tools
+	$(CC) $(OPT) $(SAN) $(DEFS) -DHDF $(TOOLINC) $(HIMPORT_C) $(B)/libh4san.a $(LIBS) -o $@
 
 clean:
 	rm -rf $(B)
